@@ -139,6 +139,31 @@ func c05Sessions(tier string) [][]string {
 	add("func clo(n){func(){n=n+1; n}}", "q1=clo(a)", "q1()", "q1()")
 	add("func lp(n){r=[]; for i=n {r=r+[func(){i}]}; r}", "z=lp(k0)", "len(z)")
 	add("i=7", "for i=k0 {i}", "i")
+	// corner cases of the register substitution (several pointed out by sub-agents reading the code)
+	add("seen = 0", "func g(n){seen = n; n = n * 10; n}", "println(g(a), seen)", "seen")
+	add("got = -1", "func f(){for i = 5 {if i == k1 {got = i}}}", "f()", "got")
+	add("K = 5", "for K = 3 {println(K)}", "K")
+	add("K = 5", "func f(K){println(K); K}", "f(a)", "K")
+	add("func f(n){++n; n}", "f(a)")
+	add("func f(n){--n}", "f(a)")
+	add("func f(n){n = \"x\"; n}", "f(a)")
+	add("func f(n){n = [n]; n}", "f(a)")
+	add("(for i=3 {i}) + (for j=5 {j})")
+	add("x = for i=k0 {i}", "y = for j=4 {j}", "println(x, y)")
+	add("m = {\"i\": 5}", "for i=2 {println(m.i)}")
+	add("func f(i){m = {\"i\": 7}; m.i + i}", "f(a)")
+	add("func show(){i}", "for i=3 {println(show())}")
+	add("func show(){n}", "func f(n){show()}", "f(a)")
+	add("func f(f){f}", "f(a)")
+	add("func f(n){[n, n+1]}", "f(a)")
+	add("func f(n){{n: n}}", "f(a)")
+	add("func f(n){for n = 2 {println(n)}; n}", "f(a)")
+	add("func f(n){g = func(){n}; n = n + 1; g()}", "f(a)")
+	add("func f(n){if n > b {return n}; n = n * 2; n}", "f(a)", "f(b)")
+	add("func f(n, s){s[n % 3]}", "f(a, \"abc\")")
+	add("for i = 3 {i = i + 1; println(i)}")
+	add("for i = 3 {println(i); i = 5}")
+	add("t = 0", "for i = 4 {for i = 2 {t = t + i}}", "t")
 	add("func fx(n){n=n*2; for n=k0 {println(n)}; n}", "fx(a)")
 	return out
 }
